@@ -91,6 +91,16 @@ def famFaultOp (se : Sess) (fam : String) (kv : KV) (f : Fault) : Sess × String
       else
         let rs := Spec.step se.o se.s (.putMany bs)
         ({ se with m := rm.1, s := rs.1 }, "r=" ++ outStr false rm.2.1, "r=" ++ outStr false rs.2)
+  else if fam == "finro" then
+    let rm := se.m.finalizeROF se.o (some f)
+    let fired := match rm.2.1 with | .err .other => true | _ => false
+    if fired then
+      -- spec: FinalizeReadOnly failed; the store counts as finalized (every later write and finalizing call
+      -- is refused), it is not closed
+      ({ se with m := rm.1, s := { se.s with finalized := true } }, "r=other", "r=other")
+    else
+      let rs := Spec.step se.o se.s .finalizeRO
+      ({ se with m := rm.1, s := rs.1 }, "r=" ++ outStr false rm.2.1, "r=" ++ outStr false rs.2)
   else
     let rm := se.m.finalizeF se.o (some f)
     let fired := match rm.2.1 with | .err .other => true | _ => false
@@ -102,7 +112,7 @@ def famFaultOp (se : Sess) (fam : String) (kv : KV) (f : Fault) : Sess × String
       ({ se with m := rm.1, s := rs.1 }, "r=" ++ outStr false rm.2.1, "r=" ++ outStr false rs.2)
 
 def famOp (se : Sess) (fam : String) (kv : KV) : Sess × String × String :=
-  if (fam == "put" || fam == "finalize" || fam == "many") && (parseFault kv).isSome then
+  if (fam == "put" || fam == "finalize" || fam == "many" || fam == "finro") && (parseFault kv).isSome then
     famFaultOp se fam kv ((parseFault kv).getD ⟨0, 0⟩)
   else if fam == "reproot" then
     -- car create's last step: ReplaceRootsInFile on the finalised file (C18)
